@@ -943,9 +943,10 @@ def families(tier, seed):
     for name, maxlen in (("Q1", 5 if deep else 4), ("Q3", 4 if deep else 3), ("Q2", 4 if deep else 3), ("mixed", 4 if deep else 3)):
         for seq in ordered_sets(alphabet_of(name), maxlen):
             sq.append({"alphabet": name, "seq": seq})
-    # histories: every ordered pair (previous content, new content) of sets with <= 2 operations on one qubit (thorough: <= 3)
-    small = ordered_sets(alphabet_of("Q1"), 3 if deep else 2)
-    sqh = [{"alphabet": "Q1", "seq": b, "prev": a} for a in small for b in small if a != b]
+    # histories: every ordered pair (previous content, new content) of sets with <= 2 operations on one qubit (thorough: new content <= 3)
+    small = ordered_sets(alphabet_of("Q1"), 2)
+    later = ordered_sets(alphabet_of("Q1"), 3) if deep else small
+    sqh = [{"alphabet": "Q1", "seq": b, "prev": a} for a in small for b in later if a != b]
     lay = [{"sys_a": a, "sys_b": b, "ma": ma, "mb": mb, "flag": f}
            for (a, b) in (("Q1", "Q1"), ("Q1", "Q3")) for (ma, mb) in ((2, 2), (2, 3), (3, 2)) for f in (True, False)]
     return [("roundtrip", rt), ("indices", ix), ("numvars", nv), ("setqops", sq), ("setqops_history", sqh), ("layout", lay)]
